@@ -196,4 +196,44 @@ example : BoxesIn32 ⟨⟨2, 3, 18, 9⟩, .heap [⟨2, 3, 18, 4⟩, ⟨3, 4, 9, 
   intro b hb
   simp only [Region.rects, List.mem_cons, List.not_mem_nil, or_false] at hb
   rcases hb with rfl | rfl <;> decide
+
+/-! ### the hypothesis `Canon clip` of `RangeOK` is needed
+
+  A `pixman_region32_t` written field by field with `data == NULL` and `x1 == x2` claims one
+  rectangle (`n_rects = 1`, `not_empty`) while holding no point.  The region API cannot build it;
+  as a clip it is outside `RangeOK` by `Canon` alone, and the code (model and library agree:
+  corpus/compregion/2.txt) can then return TRUE with that empty rectangle: the destination clip
+  makes the running region two rectangles, the translation into the source's space clamps the
+  far one away (`pixman_region32_translate`), and the single-rectangle case of
+  `pixman_region32_intersect` takes max/min of the edges without a test for emptiness. -/
+
+def ncDest : Image :=
+  { width := 2147483647, height := 2,
+    clip := ⟨⟨0, 0, 2147483647, 2⟩, .heap [⟨0, 0, 10, 1⟩, ⟨2147483000, 1, 2147483647, 2⟩]⟩,
+    haveClip := true, clipSources := false, clientClip := false, alphaMap := none }
+def ncClip : Region := ⟨⟨1005, 0, 1005, 1⟩, .single⟩
+def ncSrc : Image :=
+  { width := 8, height := 8, clip := ncClip, haveClip := true, clipSources := true,
+    clientClip := true, alphaMap := none }
+
+-- the clip is in range in every arithmetic respect …
+example : WF32 ncClip ∧ ShiftOK ncClip (0 - 1000) (0 - 0) := by decide
+-- … but it is not a region, so `ClipOK`, hence `RangeOK.src_clip`, fails
+example : ¬ Canon ncClip := by decide
+example : ¬ RangeOK ncSrc none ncDest 1000 0 0 0 0 0 2147483647 2 :=
+  fun H => absurd (H.src_clip ⟨rfl, rfl, rfl⟩).1 (by decide)
+-- the intersection of the property statement is empty …
+example : ∀ x y, ¬ R ncSrc none ncDest 1000 0 0 0 0 0 2147483647 2 x y := by
+  intro x y h
+  have := h.2.2.2.2.1 ⟨rfl, rfl, rfl⟩
+  rw [show ncSrc.clip = ncClip from rfl, ncClip, mem_single, box_mem_iff] at this
+  simp only at this
+  omega
+-- … and the code returns TRUE with the rectangle [5,5) × [0,1)
+example : computeCompositeRegion32 ncSrc none ncDest 1000 0 0 0 0 0 2147483647 2 =
+    (⟨⟨5, 0, 5, 1⟩, .single⟩, true) := by decide +kernel
+-- with the same clip one column wide (a region) the result is exact
+example : computeCompositeRegion32 { ncSrc with clip := ⟨⟨1005, 0, 1006, 1⟩, .single⟩ } none ncDest
+    1000 0 0 0 0 0 2147483647 2 = (⟨⟨5, 0, 6, 1⟩, .single⟩, true) := by decide +kernel
+
 end Pixman.Props.C03
